@@ -1,9 +1,9 @@
 CONSTANTS
   StartLines <- SL_Two
   Cat <- Catalogue
-  HdrIdx = {1,2,3,4,6,7,9,10,11,12,14,15,16,17,20,21}
+  HdrIdx = {1,2,3,4,6,7,9,10,11,12,14,15,16,17,20,21,23,24,25,26,27,28,29,30,31,32,33}
   MaxH = 2
-  Bodies <- Bodies4
+  Bodies <- Bodies2
   Peers <- PeersOne
   ClNames <- ClOne
   ClPos = {"last"}
